@@ -227,7 +227,25 @@ fn plain_streams(objects: &[(u64, Vec<u8>, bool)]) -> BTreeMap<u64, Vec<u8>> {
     objects.iter().filter(|o| o.2).filter_map(|(id, b, _)| split_stream_body(b).map(|(_, d)| (*id, d))).collect()
 }
 
-/// pass every string object of PDF text (outside stream data) through `f`; the result is written as a hex string
+/// a string object in literal or hexadecimal form (chosen by its content, so that both forms occur)
+fn string_object(b: &[u8]) -> Vec<u8> {
+    if b.iter().fold(0u32, |a, x| a.wrapping_mul(31).wrapping_add(*x as u32)) % 2 == 0 { return hex_string(b).into_bytes(); }
+    let mut o = vec![b'('];
+    for &c in b {
+        match c {
+            b'\\' => o.extend_from_slice(b"\\\\"),
+            b'(' => o.extend_from_slice(b"\\("),
+            b')' => o.extend_from_slice(b"\\)"),
+            b'\r' => o.extend_from_slice(b"\\r"),
+            b'\n' => o.extend_from_slice(b"\\n"),
+            _ => o.push(c),
+        }
+    }
+    o.push(b')');
+    o
+}
+
+/// pass every string object of PDF text (outside stream data) through `f`
 fn transform_strings(text: &[u8], f: &mut dyn FnMut(&[u8]) -> Vec<u8>) -> Vec<u8> {
     let mut out = vec![];
     let mut i = 0;
@@ -259,7 +277,7 @@ fn transform_strings(text: &[u8], f: &mut dyn FnMut(&[u8]) -> Vec<u8>) -> Vec<u8
                 }
                 i += 1;
             }
-            out.extend_from_slice(hex_string(&f(&s)).as_bytes());
+            out.extend_from_slice(&string_object(&f(&s)));
         } else if b == b'<' && i + 1 < n && text[i + 1] == b'<' {
             out.extend_from_slice(b"<<");
             i += 2;
@@ -269,7 +287,7 @@ fn transform_strings(text: &[u8], f: &mut dyn FnMut(&[u8]) -> Vec<u8>) -> Vec<u8
             while j < n && text[j] != b'>' { if !text[j].is_ascii_whitespace() { digits.push(text[j]); } j += 1; }
             if digits.len() % 2 == 1 { digits.push(b'0'); }
             let s = unhex(std::str::from_utf8(&digits).unwrap_or("")).unwrap_or_default();
-            out.extend_from_slice(hex_string(&f(&s)).as_bytes());
+            out.extend_from_slice(&string_object(&f(&s)));
             i = j + 1;
         } else if b == b'>' && i + 1 < n && text[i + 1] == b'>' {
             out.extend_from_slice(b">>");
@@ -2872,7 +2890,7 @@ fn import_generated(seed: u64, thorough: bool) -> Oracle {
     let mut or = Oracle::new("c20.import.generated");
     let mut cases = witnesses();
     cases.extend(source_witnesses());
-    let n = if thorough { 10_000 } else { 1500 };
+    let n = if thorough { 10_000 } else { 1200 };
     for case in 0..n {
         let mut rng = Rng::derive(seed, "c20.import.generated", case);
         // one document in eight has a planted cycle or a dangling reference somewhere in its graph
@@ -2950,8 +2968,8 @@ pub fn run(driver: &Driver, seed: u64, thorough: bool, replay: Option<&serde_jso
     }
     let mut rep = Report::new("C20");
     rep.streams.push(clone_exhaustive(driver, if thorough { 3 } else { 2 }));
-    rep.streams.push(clone_random(driver, seed, if thorough { 100_000 } else { 15_000 }));
-    let (sp, sf) = page_streams(driver, seed, if thorough { 50_000 } else { 8000 });
+    rep.streams.push(clone_random(driver, seed, if thorough { 100_000 } else { 10_000 }));
+    let (sp, sf) = page_streams(driver, seed, if thorough { 50_000 } else { 6000 });
     rep.streams.push(sp);
     rep.streams.push(sf);
     let (ep, ef) = page_exhaustive(driver, thorough);
